@@ -18,6 +18,19 @@ CHECKS = {
    text="All 16 names are evaluated on an r-alphabet containing every breakpoint/zero of the published formulas, their floating-point neighbours, region midpoints, a dense dyadic grid over [-1000,1000] and +-10^k (|k|<=100), and compared with the published closed forms in exact rational arithmetic; TVD bounds, psi(1)=1, clipping zero, elementwise shapes, SUPERBEE fallback; the TVD correction is evaluated for every field over {0,1,2,3} on lines of N+2 cells on all 9 classes x 16 limiters x 3 velocity patterns. Complete within the alphabet; the statement for all reals rests on the stated region-cover assumption.",
    note="Finite alphabet instead of all reals (region-cover assumption recorded in the evidence); reference formulas transcribed from the Wikipedia table the library cites.",
    ref="DESIGN.md 4/C13"),
+
+ "C10": dict(
+   engine="D-tables",
+   technique="complete finite table over (class x constructor form x N in {1..4}^d x spacing template x radial origin) against per-cell geometric closed forms",
+   text="Every grid instance of the bound is constructed in both constructor forms and every reported face, centre, size and cell volume is compared per cell with the geometric closed form of the class's coordinate system; positivity and the domain total are checked; label reachability is decided on the complete 9x3x6 table. Exhaustive within the bound.",
+   note="Closed forms evaluated in double precision (64-ulp tolerance); bound N<=4 per axis and three spacing templates; grids outside the bound not explored (geometry code is per-axis and index-uniform).",
+   ref="DESIGN.md 4/C10"),
+ "C16": dict(
+   engine="D-tables",
+   technique="complete finite tables (labels get/set, periodic-flag subsets x operations, initial-value shape families, constructor arity 0..7, BC coefficient kinds, equation-term kinds, all builders on N in {1,2,3}^d) against the documented exception types",
+   text="All rows of the finite tables named in the property are executed on the real API and the raised exception type (or acceptance) is compared with the documented one. Exhaustive over the tables; nothing is sampled.",
+   note="Expected exception types are read off the library's own raise statements and docstrings; the 6-argument direct-initialisation overload is not treated as an arity error.",
+   ref="DESIGN.md 4/C16"),
 }
 NOT_YET = {}
 
